@@ -16,7 +16,7 @@ import os
 import vcommon as V
 import tables_util as T
 
-MODEL_KINDS = {"var-model", "func-model", "stmt-model", "op-model"}
+MODEL_KINDS = {"var-model", "func-model", "stmt-model", "op-model", "var-wide-model", "func-wide-model", "stmt-wide-model"}
 
 
 def run(ctx):
@@ -103,6 +103,7 @@ def run(ctx):
         "function cells (signature x 45 masks)": sum(1 for r in obs.funcs for x in r["interp"] if x is not None),
         "statement cells (kind x 45 masks)": sum(1 for r in obs.stmts for x in r["interp"] if x is not None),
         "operator cells (23 ops x 10 types x existing value/form)": sum(1 for r in obs.ops for x in r["interp"] if x is not None),
+        "wide-annotation cells (rows x %d masks of 3..9 scopes, linter only)" % len(obs.wide_masks): getattr(obs, "wide_cells", 0),
     }
     ctx.samples = [{"cell": s, "observed": T.show(s)} for s in
                    ("V,req.http.X-Verif-One,set,%d" % T.MASKS[9], "F,resp.tarpit,0,%d" % T.MASKS[16], "S,return:deliver_stale,64",
